@@ -89,7 +89,76 @@ def tcp_history_job(job):
     return acc
 
 
+def concurrent_job(job):
+    """Several tasks use ONE protocol object at the same time - with the same command object (the inverter classes keep
+    pre-built shared commands) or with their own - while the peer answers late or drops transmissions.  The protocol
+    serialises them; every transmission must still decode to an intended operation, and on Modbus/TCP carry a non-zero
+    transaction id different from the previous transmission's."""
+    import asyncio
+    from vlib.vloop import ScriptedPeer, VLoop, World
+    transport, keep, shared = job
+    acc = Acc()
+    specs = [("read", 35100, 2), ("read", 36000, 5), ("write", 47510, -1)]
+    for ntasks in (2, 3, 4):
+        for offsets in ((0, 0, 0, 0), (0, 1, 2, 3), (0, 5, 5, 40)):
+            for script in ([], [["drop"], ["answer", 2]], [["answer", 15], ["drop"], ["drop"], ["answer", 1]]):
+                case = {"e2e": True, "concurrent": True, "transport": transport, "keep": keep, "shared": shared,
+                        "ntasks": ntasks, "offsets": list(offsets), "script": script}
+                acc.case()
+                acc.nontrivial("concurrent", transport, keep, shared, ntasks, offsets, repr(script))
+                peer = ScriptedPeer(netcase.make_responder(transport), netcase.to_actions(script, 1.0), default=("answer", 3 / 16.0))
+                world = World(peer)
+                loop = VLoop(world, max_time=1e5)
+                protocol = netcase.make_protocol(transport, 1.0, 3, keep)
+                common = netcase.make_command(transport, protocol, specs[0])
+                wanted = []
+
+                async def task(i):
+                    await asyncio.sleep(offsets[i] / 16.0)
+                    if shared == "same" or (shared == "mixed" and i % 2 == 0):
+                        cmd, spec = common, specs[0]
+                    else:
+                        spec = specs[i % len(specs)]
+                        cmd = netcase.make_command(transport, protocol, spec)
+                    wanted.append(want_op(spec, 0xF7))
+                    try:
+                        await cmd.execute(protocol)
+                    except Exception:
+                        pass
+
+                async def main():
+                    await asyncio.gather(*[task(i) for i in range(ntasks)])
+
+                out = loop.run(main())
+                loop.idle()
+                loop.shutdown()
+                if out.hang or out.exc:
+                    acc.fail("C03|e2e|concurrent|run-failed", "%r %r" % (out.hang, out.exc), case)
+                    continue
+                prev = None
+                for i, (t, tid, data, failed) in enumerate(world.tx):
+                    try:
+                        if transport == "tcp":
+                            tx, op = rw.parse_tcp_request(data)
+                        else:
+                            tx, op = None, rw.parse_rtu_request(data)
+                    except rw.ParseError as ex:
+                        acc.fail("C03|e2e|%s|undecodable" % transport, "%s: %s" % (data.hex(), ex), case)
+                        break
+                    if op not in wanted:
+                        acc.fail("C03|e2e|%s|wrong-op" % transport, "peer received %s = %r" % (data.hex(), op), case)
+                        break
+                    if transport == "tcp" and (tx == 0 or tx == prev):
+                        acc.fail("C03|e2e|tcp|tx-id", "transmission %d (of %d concurrent callers) carries transaction id %d, previous "
+                                 "transmission %r" % (i, ntasks, tx, prev), case)
+                        break
+                    prev = tx
+    return acc
+
+
 def run(ctx):
+    ctx.shard(concurrent_job, [(t, k, sh) for t in ("tcp", "udp") for k in (False, True) for sh in ("same", "own", "mixed")],
+              "concurrent callers on one protocol object (shared / own command objects)")
     ctx.shard(tcp_history_job, [(k, v) for k in (False, True) for v in range(4)],
               "Modbus/TCP transaction ids over request histories with peer resets / closes between and during requests")
     ctx.shard(job, [(t, k) for t in ("udp", "tcp", "aa55") for k in (False, True)],
@@ -97,6 +166,9 @@ def run(ctx):
 
 
 def replay(ctx, case):
+    if case.get("concurrent"):
+        ctx.acc.merge(concurrent_job((case["transport"], case["keep"], case["shared"])))
+        return
     if case.get("tcp_history"):
         ctx.acc.merge(tcp_history_job((case["keep"], case["variant"])))
         return
